@@ -47,9 +47,14 @@ type tstate struct {
 	results []interface{}
 }
 
-type exec struct {
-	env      *world.Env
-	p        *world.Plan
+// Exec interprets history operations for one task against goom and the model.
+type Exec struct {
+	env *world.Env
+	p   *world.Plan
+	// Foreign returns regions owned by other tasks (conc world); nil in sequential worlds.
+	Foreign  func() []simenv.Region
+	Ops      []world.Op
+	Label    string
 	builders []*mocker.Builder
 	st       map[int]*tstate
 	phUsed   map[int]bool
@@ -57,7 +62,7 @@ type exec struct {
 	opi      int
 }
 
-func (x *exec) state(t int) *tstate {
+func (x *Exec) state(t int) *tstate {
 	s := x.st[t]
 	if s == nil {
 		s = &tstate{kind: kOrig, owner: -1}
@@ -70,7 +75,21 @@ func (x *exec) state(t int) *tstate {
 // the process (the property allows exactly that).
 var phEver = map[int]bool{}
 
-func (x *exec) sortedTargets() []int {
+// NewExec creates an interpreter for ops.
+func NewExec(env *world.Env, p *world.Plan, ops []world.Op) *Exec {
+	return &Exec{env: env, p: p, Ops: ops, st: map[int]*tstate{}, phUsed: map[int]bool{}}
+}
+
+// Mocked reports whether the model says target ti is currently mocked by this interpreter.
+func (x *Exec) Mocked(ti int) bool {
+	s := x.st[ti]
+	return s != nil && s.kind != kOrig
+}
+
+// TargetsTouched lists the targets this interpreter has state for.
+func (x *Exec) TargetsTouched() []int { return x.sortedTargets() }
+
+func (x *Exec) sortedTargets() []int {
 	out := make([]int, 0, len(x.st))
 	for ti := range x.st {
 		out = append(out, ti)
@@ -79,7 +98,15 @@ func (x *exec) sortedTargets() []int {
 	return out
 }
 
-func (x *exec) regions() []simenv.Region {
+func (x *Exec) regions() []simenv.Region {
+	rs := x.ownRegions()
+	if x.Foreign != nil {
+		rs = append(rs, x.Foreign()...)
+	}
+	return rs
+}
+
+func (x *Exec) ownRegions() []simenv.Region {
 	var rs []simenv.Region
 	for ti, s := range x.st {
 		if s.kind != kOrig {
@@ -93,12 +120,12 @@ func (x *exec) regions() []simenv.Region {
 	return rs
 }
 
-func (x *exec) at() string {
-	if x.opi < len(x.p.Tasks[0].Ops) {
-		op := x.p.Tasks[0].Ops[x.opi]
-		return fmt.Sprintf("op#%d %s", x.opi, opString(op))
+func (x *Exec) at() string {
+	if x.opi < len(x.Ops) {
+		op := x.Ops[x.opi]
+		return fmt.Sprintf("%sop#%d %s", x.Label, x.opi, opString(op))
 	}
-	return "final"
+	return x.Label + "final"
 }
 
 func opString(op world.Op) string {
@@ -116,18 +143,20 @@ func shortName(n string) string {
 	return n
 }
 
-func (x *exec) fail(sig, format string, a ...interface{}) {
+func (x *Exec) fail(sig, format string, a ...interface{}) {
 	x.env.Res.At = x.at()
 	x.env.Fail(sig, format, a...)
 }
 
 // checkImage evaluates the text-image and page oracles.
-func (x *exec) checkImage() {
+func (x *Exec) checkImage() {
 	x.env.Check()
 	if msg := x.env.Image.Check(x.regions()); msg != "" {
 		x.fail("image/stray", "%s", msg)
 	}
-	if msg := x.env.Image.CheckPages(false); msg != "" {
+	// while another task is parked inside a write the seam knows of RWX pages: only "executable"
+	// can be required then; otherwise no text page may be writable
+	if msg := x.env.Image.CheckPages(simcore.InRWXWindow()); msg != "" {
 		x.fail("pages/writable", "%s", msg)
 	}
 }
@@ -144,7 +173,7 @@ func isNoCondition(pv interface{}) bool {
 }
 
 // callTarget calls target ti in the given form and checks the outcome against the model.
-func (x *exec) callTarget(ti, form int, argSeed uint64, hit bool) {
+func (x *Exec) callTarget(ti, form int, argSeed uint64, hit bool) {
 	t := Targets[ti]
 	s := x.state(ti)
 	args := val.GenArgs(rng.Derive(argSeed, 11), t.Typ)
@@ -167,7 +196,7 @@ func (x *exec) callTarget(ti, form int, argSeed uint64, hit bool) {
 	before := t.RanCount()
 	if s.rec != nil {
 		s.rec.Snapshot()
-		s.rec.MaxDepth = 0
+		s.rec.ResetDepth()
 	}
 	if s.kind == kCbOrigin {
 		reserveStack()
@@ -212,8 +241,15 @@ func (x *exec) callTarget(ti, form int, argSeed uint64, hit bool) {
 		}
 		calls, seen, ores := s.rec.Snapshot()
 		want := t.Ref(args)
-		if calls != 1 || s.rec.MaxDepth > 1 {
-			x.fail("origin/reentry", "mocked %s: callback ran %d times (depth %d) for one call through the origin placeholder", t.Name, calls, s.rec.MaxDepth)
+		depth := s.rec.GetMaxDepth()
+		if calls == 2 && depth == 2 && ran == 1 && x.env.Known["S1"] && val.SameList(seen, args, true) && val.SameList(ores, want, false) {
+			// open known finding S1: the relocated stack check failed (low headroom or a pending
+			// preemption request) and the slow path re-entered the mock once before succeeding
+			x.env.UseKnown("S1")
+			calls, depth = 1, 1
+		}
+		if calls != 1 || depth > 1 {
+			x.fail("origin/reentry", "mocked %s: callback ran %d times (depth %d) for one call through the origin placeholder", t.Name, calls, depth)
 		}
 		if !val.SameList(seen, args, true) {
 			x.fail("behaviour/cb-args", "mocked %s: origin callback saw %s, caller passed %s", t.Name, val.ShowList(seen), val.ShowList(args))
@@ -294,7 +330,7 @@ func reserveStack() int {
 	return int(pad[0]) + int(pad[len(pad)-1])
 }
 
-func (x *exec) builder(b int) *mocker.Builder {
+func (x *Exec) builder(b int) *mocker.Builder {
 	for len(x.builders) <= b {
 		x.builders = append(x.builders, nil)
 	}
@@ -334,7 +370,7 @@ func causeChainOK(pv interface{}) string {
 	return ""
 }
 
-func (x *exec) step(op world.Op) {
+func (x *Exec) step(op world.Op) {
 	switch op.K {
 	case "apply":
 		t := Targets[op.T]
@@ -472,7 +508,7 @@ func growStack(depth int) int {
 
 // bad performs one ill-formed configuration call and checks that it is rejected and changes
 // nothing.
-func (x *exec) bad(op world.Op) {
+func (x *Exec) bad(op world.Op) {
 	t := Targets[op.T]
 	b := x.builder(op.B)
 	desc := ""
@@ -630,6 +666,27 @@ func wrongSizeCallback(ft reflect.Type, r *rng.R) interface{} {
 	}).Interface()
 }
 
+// Step executes one operation (exported for the concurrent world).
+func (x *Exec) Step(i int, op world.Op) {
+	x.opi = i
+	x.step(op)
+}
+
+// CallTarget calls a target and checks the outcome against this interpreter's model.
+func (x *Exec) CallTarget(ti, form int, seed uint64) { x.callTarget(ti, form, seed, false) }
+
+// CheckImage evaluates the image and page oracles.
+func (x *Exec) CheckImage() { x.checkImage() }
+
+// Final resets every builder of this interpreter and checks original behaviour.
+func (x *Exec) Final() {
+	x.opi = len(x.Ops)
+	x.final()
+}
+
+// Regions returns the image regions this interpreter currently allows to differ.
+func (x *Exec) Regions() []simenv.Region { return x.ownRegions() }
+
 // Exec runs the plan.
 func (W) Exec(p *world.Plan, env *world.Env) {
 	if !WellFormed(p) {
@@ -637,13 +694,13 @@ func (W) Exec(p *world.Plan, env *world.Env) {
 		env.Res.Msg = "history is not well-formed (see DESIGN.md Appendix F)"
 		return
 	}
-	x := &exec{env: env, p: p, st: map[int]*tstate{}, phUsed: map[int]bool{}}
+	x := NewExec(env, p, p.Tasks[0].Ops)
 	task := func() {
 		for i, op := range p.Tasks[0].Ops {
 			x.opi = i
 			simcore.Yield(simcore.SiteOp, uintptr(i))
 			x.step(op)
-			env.Res.Ops++
+			env.Op()
 		}
 		x.opi = len(p.Tasks[0].Ops)
 		x.final()
@@ -656,7 +713,7 @@ func (W) Exec(p *world.Plan, env *world.Env) {
 			env.FailNoUnwind("crash/panic", "unexpected panic at %s: %v", x.at(), pv)
 		}
 	}
-	env.Res.Nontriv = res.Stats.GC+res.Stats.Grow > 0 || env.Res.Probes["explicit_gc"] > 0 || hasKind(p, "gc", "grow", "dropref", "bad")
+	env.Res.Nontriv = res.Stats.GC+res.Stats.Grow > 0 || hasKind(p, "gc", "grow", "dropref", "bad")
 }
 
 func hasKind(p *world.Plan, ks ...string) bool {
@@ -671,7 +728,7 @@ func hasKind(p *world.Plan, ks ...string) bool {
 }
 
 // final resets everything and requires the pristine image and original behaviour.
-func (x *exec) final() {
+func (x *Exec) final() {
 	// orphans: hand over to a cleanup builder, then reset it
 	var cleanup *mocker.Builder
 	for _, ti := range x.sortedTargets() {
